@@ -141,12 +141,11 @@ func normVC(d *J) *J {
 		}
 	}
 
-	if v := c.get("credentialSubject"); v != nil {
+	if v := c.get("credentialSubject"); v != nil && v.K == jNull {
+		// null: no subject
+		c.del("credentialSubject")
+	} else if v != nil {
 		l := wrapArr(v)
-		if v.K == jNull {
-			l = arr(str(""))
-		}
-
 		for i, x := range l.A {
 			switch x.K {
 			case jStr:
@@ -640,7 +639,7 @@ func runCase(kind string, c caseDesc) {
 	case "fp":
 		runFP(kind, c.Code, c.Key, c.Note)
 	case "didkey":
-		runDIDKey(kind, c.Key, c.Note)
+		runDIDKeyCode(kind, c.Code, c.Key, c.Note)
 	}
 }
 
@@ -716,21 +715,22 @@ func main() {
 		runVC("random-vc-validated", randValidVC(rng.Fork(uint64(100000+i))), true, "")
 	}
 
-	for i := 0; i < 400*scale; i++ {
+	for i := 0; i < 300*scale; i++ {
 		d, _ := randVP(rng.Fork(uint64(200000 + i)))
 		runVP("random-vp", d, "")
 	}
 
-	for i := 0; i < 300*scale; i++ {
+	for i := 0; i < 250*scale; i++ {
 		r := rng.Fork(uint64(300000 + i))
 		runJWT("random-jwt", randJWTVC(r), r.Bool(), "")
 	}
 
-	for i := 0; i < 300*scale; i++ {
+	for i := 0; i < 250*scale; i++ {
 		runDID("random-did", randDID(rng.Fork(uint64(400000+i))), "")
 	}
 
 	genFP(rng.Fork(500000), scale)
+	genDIDKeys(rng.Fork(600000), scale)
 }
 
 func min(a, b int) int {
